@@ -84,7 +84,7 @@ const (
 )
 
 func c10Gen(t *rapid.T) qScenario {
-	sc := qScenario{MaxTries: rapid.IntRange(2, 4).Draw(t, "max_tries"), Partial: rapid.Bool().Draw(t, "partial"), Bounce: "ok"}
+	sc := qScenario{MaxTries: rapid.IntRange(2, 4).Draw(t, "max_tries"), Partial: rapid.Bool().Draw(t, "partial"), Bounce: "ok", TargetRewrites: rapid.IntRange(0, 2).Draw(t, "target_rewrites") == 0}
 	m := qMsg{ID: "m0", AuthUser: c10UserMarker, AuthPassword: c10PassMarker}
 	m.Header = ev.QS(c10GenHeader(t))
 	body, inFile := c10GenBody(t)
